@@ -221,11 +221,16 @@ def part_monotone(chk, prove_lemmas, timeout_s):
     qs += lemmas
     if prove_lemmas:
         r, a, b, q = (z3.FP(n, f64.F64) for n in ("r", "a", "b", "q"))
-        hyp = [z3.fpGEQ(r, FV(0.0)), z3.fpLT(r, FV(1.0)), z3.fpGEQ(a, FV(0.0)), z3.fpLEQ(a, b),
-               z3.fpLEQ(b, FV(P40))]
-        qs.append(solve.obligation_query("mono/lemma-A-ieee-add-monotone", hyp,
-                                         z3.fpLEQ(z3.fpAdd(RNE, r, a), z3.fpAdd(RNE, r, b)),
-                                         solver="cvc5", timeout_s=2400, group="mono/lemma-A"))
+        # lemma A, case split on the larger addend (the unsplit query does not finish in 40 min; slices below 2^-10
+        # need > 25 min each and are left as a stated assumption)
+        for lo, hi in ((2.0 ** -10, 1.0), (1.0, 16.0), (16.0, 4096.0), (4096.0, 2.0 ** 26), (2.0 ** 26, P40)):
+            hyp = [z3.fpGEQ(r, FV(0.0)), z3.fpLT(r, FV(1.0)), z3.fpGEQ(a, FV(0.0)), z3.fpLEQ(a, b),
+                   z3.fpGT(b, FV(lo)), z3.fpLEQ(b, FV(hi))]
+            qs.append(solve.obligation_query("mono/lemma-A-ieee-add-monotone(%g,%g]" % (lo, hi), hyp,
+                                             z3.fpLEQ(z3.fpAdd(RNE, r, a), z3.fpAdd(RNE, r, b)),
+                                             solver="cvc5", timeout_s=2400, group="mono/lemma-A"))
+        chk.assume("thorough tier: lemma A (monotonicity of IEEE addition) is proved bit-precisely for displacements in "
+                   "(2^-10, 2^40] and assumed for displacements <= 2^-10 (solver budget)")
         hyp = [integral(q), z3.fpGEQ(q, FV(0.0)), z3.fpLEQ(q, FV(P52)), integral(a), integral(b),
                z3.fpGEQ(a, FV(0.0)), z3.fpLT(a, b), z3.fpLEQ(b, FV(P40 + 1.0))]
         qs.append(solve.obligation_query("mono/lemma-C-integral-add-strictly-monotone", hyp,
